@@ -150,6 +150,14 @@ pub fn atoms() -> Vec<Atom> {
     let mut a = atom("adv_push", "adv_push.3 drop drop drop", &["stack", "advice"]);
     a.advice = vec![21, 22, 23];
     v.push(a);
+    // advice-injector decorators whose effect is visible: what they put on the advice stack / into the advice
+    // map is read back (a decorator that is dropped - e.g. by debug-mode assembly - makes the read fail)
+    v.push(atom("adv_inj_u64div", "push.10 push.0 push.3 push.0 adv.push_u64div adv_push.4 dropw dropw", &["stack", "advice"]));
+    v.push(atom(
+        "adv_inj_hdword_mapval",
+        "push.1.2.3.4 push.5.6.7.8 adv.insert_hdword hmerge adv.push_mapval adv_push.8 dropw dropw dropw",
+        &["stack", "advice", "hasher"],
+    ));
     let mut a = atom("adv_loadw", "padw adv_loadw dropw", &["stack", "advice"]);
     a.advice = vec![21, 22, 23, 24];
     v.push(a);
